@@ -210,7 +210,8 @@ def _run(X, K, disciplined):
                     X.reach("overlapping-hooks")
             elif s == "exit":
                 X.assume(len(pending) > 0)
-                cm = pending.pop()
+                # hooks are independent asyncio tasks: they may complete in any order, not only LIFO
+                cm = pending.pop(X.choose("which_hook", len(pending)) if len(pending) > 1 else 0)
                 cm.__exit__(None, None, None)
                 ref["last"] = env.now
                 X.reach("hook-exit")
